@@ -389,6 +389,17 @@ fn grammar_strings(fx: &Fixture) -> Vec<String> {
         let mut c = chars.clone();
         c.insert(i, ',');
         v.push(c.into_iter().collect());
+        // every character duplicated, and replaced by each member of a small alphabet
+        let mut c = chars.clone();
+        c.insert(i, chars[i]);
+        v.push(c.into_iter().collect());
+        for r in ['$', ',', '=', 'm', 't', 'p', 'v', '0', '9', 'A', ';', ' ', '-', '+'] {
+            if chars[i] != r {
+                let mut c = chars.clone();
+                c[i] = r;
+                v.push(c.into_iter().collect());
+            }
+        }
     }
     v
 }
@@ -527,7 +538,7 @@ pub fn run() -> i32 {
     let mut ctx = Ctx::new("C04", "exploration");
     let nshards = 16usize;
     let tier = ctx.tier;
-    ctx.rule = "product: every byte-string consumer (21 AEAD open forms incl. from_bytes parsers, 4 stream pull forms, 5 signature verification/opening forms, MAC verification classic+object, password-hash string consumers) x every input length 0..=2*overhead+64 (+256 thorough) x 5 content classes (zeros, 0xff, seeded random, authentic message cut to the length, authentic with one byte mutated); authentic stream messages carrying every tag byte 0..=255 at 3 message lengths through all pull forms; password-hash string grammar product (6 algorithm tokens x 5 versions x 8 memory x 6 time x 4 parallelism x 7 salt x 6 hash fields) plus structural mutants (every field deleted/duplicated/swapped, every character deleted, every prefix, '$' and ',' inserted at every position); oracle: each call returns (Ok or Err) — no unwind, no abort/signal (16 child processes), largest single allocation <= 16 MiB + 8 x input length; non-trivial = every executed call".into();
+    ctx.rule = "product: every byte-string consumer (21 AEAD open forms incl. from_bytes parsers, 4 stream pull forms, 5 signature verification/opening forms, MAC verification classic+object, password-hash string consumers) x every input length 0..=2*overhead+64 (+256 thorough) x 5 content classes (zeros, 0xff, seeded random, authentic message cut to the length, authentic with one byte mutated); authentic stream messages carrying every tag byte 0..=255 at 3 message lengths through all pull forms; password-hash string grammar product (6 algorithm tokens x 5 versions x 8 memory x 6 time x 4 parallelism x 7 salt x 6 hash fields) plus structural mutants (every field deleted/duplicated/swapped, every character deleted / duplicated / replaced by each of 14 alphabet characters, every prefix, '$' and ',' inserted at every position); oracle: each call returns (Ok or Err) — no unwind, no abort/signal (16 child processes), largest single allocation <= 16 MiB + 8 x input length; non-trivial = every executed call".into();
     ctx.assume("caller-owned output buffers are sized as the API documents for the given input length; cost parameters reaching verify are bounded (m <= 64 KiB, t <= 3) as the property states");
     let exe = std::env::current_exe().unwrap();
     let seed = ctx.seed;
